@@ -475,7 +475,15 @@ def attr_classes():
     def __call__(self, x):
       return x * 3.0 + 1.0
 
-  _ATTR.update(A=A, JA=nn.jit(A), JHolder=nn.jit(Holder), Holder=Holder, Twice=Twice, Thrice=Thrice)
+  def factory(k):
+    # classes made by a factory share module + qualified name; only the class OBJECT tells them apart
+    class Fac(nn.Module):
+      def __call__(self, x):
+        return x * k + 1.0
+    return Fac
+
+  _ATTR.update(A=A, JA=nn.jit(A), JHolder=nn.jit(Holder), Holder=Holder, Twice=Twice, Thrice=Thrice,
+               Fac2=factory(2.0), Fac5=factory(5.0), FacJ2=nn.jit(factory(2.0)), FacJ5=nn.jit(factory(5.0)))
   return _ATTR
 
 
@@ -485,7 +493,8 @@ ATTR_VALUES = [dict(axis=-1), dict(axis=-2), dict(axis=0), dict(axis=(-1,)), dic
                dict(scale=-1), dict(scale=-2), dict(scale=1.0), dict(scale=2.0 ** 61), dict(tags=(-1,)), dict(tags=(-2,)), dict(tags=('a', -1)),
                dict(tags=('a', -2)), dict(tags='ab'), dict(tags='abc'), dict(cfg=(('k', -1),)), dict(cfg=(('k', -2),)),
                dict(axis=-2, scale=-1.0), dict(axis=-1, scale=-2.0), dict(layer_cls='Twice'), dict(layer_cls='Thrice'),
-               dict(layer_cls='Twice', axis=-2), dict(layer_cls='Thrice', axis=-2)]
+               dict(layer_cls='Twice', axis=-2), dict(layer_cls='Thrice', axis=-2), dict(factory_child='Fac2'), dict(factory_child='Fac5'),
+               dict(layer_cls='Fac2'), dict(layer_cls='Fac5')]
 
 
 def run_attr_history(ctx, i, rng):
@@ -496,14 +505,21 @@ def run_attr_history(ctx, i, rng):
   form = ['class', 'holder'][i % 2]
   order = list(range(len(ATTR_VALUES)))
   rng.shuffle(order)
-  order = order[:10]
+  order = order[:12]
   desc = dict(form=form, order=[ATTR_VALUES[j] for j in order])
   with ctx.case('attr_history', i, desc, nontrivial=True):
     x = np.random.default_rng(i).uniform(-1, 1, size=(2, 3, 3)).astype(np.float32)
     v = C['A']().init(jax.random.key(0), x)
     for j in order:
       kw = {k: (C[v] if k == 'layer_cls' else v) for k, v in ATTR_VALUES[j].items()}
-      if form == 'class':
+      if 'factory_child' in kw:
+        # the module-valued attribute (holder form) / the jitted class itself (class form) is an instance of a factory-made class
+        name = kw['factory_child']
+        if form == 'class':
+          got, want = C['FacJ' + name[-1]]().apply({}, x), C[name]().apply({}, x)
+        else:
+          got, want = C['JHolder'](C[name]()).apply({}, x), C['Holder'](C[name]()).apply({}, x)
+      elif form == 'class':
         got = C['JA'](**kw).apply(v, x)
         want = C['A'](**kw).apply(v, x)
       else:
